@@ -220,7 +220,13 @@ def run(case):
         return {'status': 'skip', 'feats': ['merge_fails']}
     tree = mo[1]
     if not tree:
-        return {'status': 'skip', 'feats': ['empty_root']}
+        # the empty merged tree: a config like any other - it keeps its (empty) source, and evaluating that again gives {} again
+        o = lib.outcome(lambda: Config(tree))
+        o2 = lib.outcome(lambda: Config(o[1].ayns.source)) if o[0] == 'ok' else o
+        if o2[0] != 'ok' or dict(o2[1]) != {} or dict(o[1]) != {}:
+            return {'status': 'violation', 'nontrivial': False, 'feats': ['empty_root'],
+                    'violations': [{'mech': 'empty-config-source-not-reusable', 'what': f'the merged tree is empty: Config(tree) -> {lib.describe(o) if o[0] == "err" else dict(o[1])}, Config(cfg.ayns.source) -> {lib.describe(o2) if o2[0] == "err" else dict(o2[1])}; texts={texts!r}'}]}
+        return {'status': 'ok', 'nontrivial': False, 'feats': ['empty_root']}
     src_before = view.tree_view(tree, flags=FLAGS, md=True)
     verif_targets.reset()
     from awesomeyaml.eval_context import EvalContext
